@@ -6,11 +6,15 @@ pub mod c03;
 pub mod c04;
 pub mod c05;
 pub mod c06;
+pub mod c07;
 pub mod c08;
 pub mod c09;
+pub mod c10;
+pub mod c11;
 pub mod c12;
 pub mod c13;
 pub mod c14;
+pub mod c15;
 pub mod c16;
 pub mod c18;
 pub mod c19;
@@ -29,11 +33,15 @@ pub fn all() -> Vec<Check> {
         Check { info: &c04::INFO, run: c04::run },
         Check { info: &c05::INFO, run: c05::run },
         Check { info: &c06::INFO, run: c06::run },
+        Check { info: &c07::INFO, run: c07::run },
         Check { info: &c08::INFO, run: c08::run },
         Check { info: &c09::INFO, run: c09::run },
+        Check { info: &c10::INFO, run: c10::run },
+        Check { info: &c11::INFO, run: c11::run },
         Check { info: &c12::INFO, run: c12::run },
         Check { info: &c13::INFO, run: c13::run },
         Check { info: &c14::INFO, run: c14::run },
+        Check { info: &c15::INFO, run: c15::run },
         Check { info: &c16::INFO, run: c16::run },
         Check { info: &c18::INFO, run: c18::run },
         Check { info: &c19::INFO, run: c19::run },
